@@ -99,14 +99,14 @@ inductive Ret where
 /-- program counter of the runtime thread: the NEXT action -/
 inductive RtPc where
   | mainStart                          -- start polling the main future
-  | mainBody                           -- inside the poll of the main future
+  | poll (b : Back)                    -- inside a poll: of the main future, or of task `cur` during the tick
+                                       -- (`nxt` = the iterator's prefetched `curr`, `k` = remaining budget)
   | drainCheck (r : Ret)               -- `pending.load() == 0`
   | draining (r : Ret) (d : Nat)       -- `sync.pop()` loop, `d` drained so far
   | lwake (b : Back)                   -- Local::schedule: driver waker, fetch_or
   | lcas (b : Back)
   | lwrite (b : Back)
   | run (nxt : Option Nat) (k : Nat)   -- tick loop: iterator's `curr`, remaining budget
-  | body (t : Nat) (nxt : Option Nat) (k : Nat)   -- inside the poll of task t
   | xarm | xsubmit | xreset            -- external loop: `flush`
   | xwait                              -- external loop waits on the fd
   | xclear                             -- adapter `clear`
@@ -158,96 +158,91 @@ def init (cfg : Cfg) : State :=
     mainSeq := 0, mainWoken := false, pollSeq := fun _ => 0, woken := fun _ => false, polls := fun _ => 0,
     mainPolls := 0, log := [], uflow := false }
 
-/-! ### kernel -/
+/-! ### kernel
 
-/-- a completion is posted for the notifier's poll: CQ non-empty, the registered eventfd is signalled -/
-def postCqe (s : State) : State := { s with cq := true, xfd := s.xfd + 1 }
+All helpers below are single record updates of the state (their right-hand sides are component functions),
+so that `simp` flattens a step into one record. -/
 
-/-- `write(eventfd, 1)` (io_uring notifier) / the polling crate's `notifier.notify()` -/
-def kWrite (s : State) : State :=
-  let s := { s with efd := s.efd + 1 }
+/-- does a write to the notifier's eventfd post a completion (io_uring, multishot poll armed)? -/
+def posts (s : State) : Bool :=
   match s.cfg.drv with
-  | .iour => if s.arm = .live then postCqe s else s
-  | .poll => s
+  | .iour => s.arm == .live
+  | .poll => false
+
+/-- `write(eventfd, 1)` (io_uring notifier) / the polling crate's `notifier.notify()`; a completion posted for
+the notifier's poll makes the CQ non-empty and signals the eventfd registered with the ring -/
+def kWrite (s : State) : State :=
+  { s with efd := s.efd + 1, cq := s.cq || posts s, xfd := s.xfd + (if posts s then 1 else 0) }
 
 /-- what the kernel wait looks at -/
 def signal (s : State) : Bool :=
   match s.cfg.drv with
   | .iour => s.cq
-  | .poll => s.efd > 0
+  | .poll => decide (s.efd > 0)
 
 /-- readiness of the descriptor an external loop waits on (compio-compat: the eventfd registered with the
 ring for io_uring, the poller's own fd otherwise) -/
 def fdReadable (s : State) : Bool :=
   match s.cfg.drv with
-  | .iour => s.xfd > 0
-  | .poll => s.efd > 0
+  | .iour => decide (s.xfd > 0)
+  | .poll => decide (s.efd > 0)
 
 /-- readiness of `Runtime::as_raw_fd()` itself -/
 def ringReadable (s : State) : Bool :=
   match s.cfg.drv with
   | .iour => s.cq
-  | .poll => s.efd > 0
+  | .poll => decide (s.efd > 0)
 
 /-! ### driver steps (runtime thread) -/
 
-def doReset (s : State) : State × Bool :=
-  let r := AwakeFlag.reset s.flag
-  ({ s with flag := r.1 }, r.2)
-
-def doSetAwake (s : State) : State := { s with flag := AwakeFlag.set s.flag }
-
-def doFlagWake (s : State) : State × Bool :=
-  let r := AwakeFlag.wake s.flag
-  ({ s with flag := r.1 }, r.2)
-
 /-- `arm_notifier` -/
-def doArm (s : State) : State :=
+def armAfter (s : State) : Arm :=
   match s.cfg.drv with
-  | .iour => if s.arm = .needPush then { s with arm := .queued } else s
-  | .poll => s
+  | .iour => if s.arm = .needPush then .queued else s.arm
+  | .poll => s.arm
 
-/-- the submission half of `submit_auto` -/
-def doSubmit (s : State) : State :=
+def doArm (s : State) : State := { s with arm := armAfter s }
+
+/-- does the submission arm the notifier's poll in the kernel? -/
+def submits (s : State) : Bool :=
   match s.cfg.drv with
-  | .iour =>
-    if s.arm = .queued then
-      let s := { s with arm := .live }
-      if s.efd > 0 then postCqe s else s
-    else s
-  | .poll => s
+  | .iour => s.arm == .queued
+  | .poll => false
+
+/-- the submission half of `submit_auto`; a poll armed on an already readable eventfd completes at once -/
+def doSubmit (s : State) : State :=
+  { s with arm := if submits s then .live else s.arm,
+           cq := s.cq || (submits s && decide (s.efd > 0)),
+           xfd := s.xfd + (if submits s && decide (s.efd > 0) then 1 else 0) }
 
 /-! ### executor helpers -/
 
 /-- `TaskQueue::make_hot`: only an id that is in the map and cold moves, to the hot tail -/
-def makeHot (s : State) (t : Nat) : State :=
-  if s.dropped t || s.hot.contains t then s else { s with hot := s.hot ++ [t] }
+def hotPush (dropped : Nat → Bool) (hot : List Nat) (t : Nat) : List Nat :=
+  if dropped t || hot.contains t then hot else hot ++ [t]
+
+def makeHot (s : State) (t : Nat) : State := { s with hot := hotPush s.dropped s.hot t }
 
 /-- `TaskQueue::next_hot` -/
 def nextHot : List Nat → Nat → Option Nat
   | [], _ => none
   | x :: rest, id => if x = id then rest.head? else nextHot rest id
 
-def backPc : Back → RtPc
-  | .main => .mainBody
-  | .task c n k => .body c n k
-
 /-- end of `Executor::tick` (`queue.has_hot()`), then the caller's next action -/
 def afterTick (s : State) : State :=
-  let s := { s with zero := !s.hot.isEmpty }
   match s.cfg.loop with
-  | .own => { s with rt := .reset }
-  | .ext => { s with rt := .xarm }
+  | .own => { s with zero := !s.hot.isEmpty, rt := .reset }
+  | .ext => { s with zero := !s.hot.isEmpty, rt := .xarm }
 
 /-- end of `drain_sync` -/
 def drainDone (s : State) (r : Ret) : State :=
   match r with
   | .tick => { s with rt := .run s.hot.head? s.cfg.maxInt }
-  | .loc t b => { (makeHot s t) with rt := .lwake b }
+  | .loc t b => { s with hot := hotPush s.dropped s.hot t, rt := .lwake b }
 
 /-- `pending.fetch_sub(n)` -/
 def subPending (s : State) (n : Nat) : State :=
-  if n ≤ s.pending then { s with pending := s.pending - n } else { s with pending := 0, uflow := true }
+  { s with pending := s.pending - n, uflow := s.uflow || decide (s.pending < n) }
 
 /-- `Task::drop` by the executor + `queue.remove` -/
 def dropTask (s : State) (t : Nat) : State :=
@@ -265,6 +260,11 @@ inductive RtEv where
   | timeout            -- the kernel wait returns because of its timeout (timers) / a spurious return
   deriving DecidableEq, Repr
 
+/-- `make_cold`, `take`, and the first action of `Task::run`: `unschedule` (a poll of t starts here) -/
+def startPoll (s : State) (t : Nat) : State :=
+  { s with hot := s.hot.erase t, word := upd s.word t (TaskState.unschedule (s.word t)),
+           pollSeq := upd s.pollSeq t (s.pollSeq t + 1), woken := upd s.woken t false }
+
 def startLocal (s : State) (t : Nat) (b : Back) : State :=
   -- `header.shared.load()` null: "Executor dropped", nothing happens
   if s.dropped t then s else { s with rt := .drainCheck (.loc t b) }
@@ -272,55 +272,48 @@ def startLocal (s : State) (t : Nat) (b : Back) : State :=
 def rtStep (s : State) (e : RtEv) : Option State :=
   match s.rt, e with
   | .mainStart, .go =>
-    some { s with rt := .mainBody, mainWoken := false, mainSeq := s.mainSeq + 1, mainPolls := s.mainPolls + 1 }
-  | .mainBody, .go => some { s with rt := .drainCheck .tick }
-  | .mainBody, .loc t => some (startLocal s t .main)
+    some { s with rt := .poll .main, mainWoken := false, mainSeq := s.mainSeq + 1, mainPolls := s.mainPolls + 1 }
+  | .poll .main, .go => some { s with rt := .drainCheck .tick }
+  | .poll (.task _ nxt k), .go => some { s with rt := .run nxt k }
+  | .poll (.task t nxt k), .ready =>
+    some { (dropTask { s with word := upd s.word t (TaskState.finishRunning (s.word t)) } t) with rt := .run nxt k }
+  | .poll b, .loc t => some (startLocal s t b)
   | .drainCheck r, .go =>
     if s.pending = 0 then some (drainDone s r) else some { s with rt := .draining r 0 }
   | .draining r d, .go =>
     match s.sync with
     | [] => some (drainDone (if d = 0 then s else subPending s d) r)
-    | x :: rest => some { (makeHot { s with sync := rest } x) with rt := .draining r (d + 1) }
+    | x :: rest => some { s with sync := rest, hot := hotPush s.dropped s.hot x, rt := .draining r (d + 1) }
   | .lwake b, .go =>
-    let (s, was) := doFlagWake s
-    if was then some { s with rt := backPc b }
+    if (AwakeFlag.wake s.flag).2 then some { s with flag := (AwakeFlag.wake s.flag).1, rt := .poll b }
     else match s.cfg.drv with
-      | .iour => some { s with rt := .lwrite b }
-      | .poll => some { s with rt := .lcas b }
+      | .iour => some { s with flag := (AwakeFlag.wake s.flag).1, rt := .lwrite b }
+      | .poll => some { s with flag := (AwakeFlag.wake s.flag).1, rt := .lcas b }
   | .lcas b, .go =>
-    if s.pnot then some { s with rt := backPc b } else some { s with pnot := true, rt := .lwrite b }
-  | .lwrite b, .go => some { (kWrite s) with rt := backPc b }
+    if s.pnot then some { s with rt := .poll b } else some { s with pnot := true, rt := .lwrite b }
+  | .lwrite b, .go => some { (kWrite s) with rt := .poll b }
   | .run nxt k, .go =>
     match k, nxt with
     | 0, _ => some (afterTick s)
     | _ + 1, none => some (afterTick s)
     | k + 1, some t =>
-      if s.dropped t then some (afterTick s) else
-      let nxt' := nextHot s.hot t
-      let old := s.word t
-      -- `make_cold`, `take`, `Task::run`: `unschedule`
-      let s := { s with hot := s.hot.erase t, word := upd s.word t (TaskState.unschedule old),
-                        pollSeq := upd s.pollSeq t (s.pollSeq t + 1), woken := upd s.woken t false }
-      if TaskState.isCancelled old then some { (dropTask s t) with rt := .run nxt' k }
-      else some { s with polls := upd s.polls t (s.polls t + 1), log := s.log ++ [t], rt := .body t nxt' k }
-  | .body _ nxt k, .go => some { s with rt := .run nxt k }
-  | .body t nxt k, .ready =>
-    let s := { s with word := upd s.word t (TaskState.finishRunning (s.word t)) }
-    some { (dropTask s t) with rt := .run nxt k }
-  | .body t nxt k, .loc t' => some (startLocal s t' (.task t nxt k))
+      if s.dropped t then some (afterTick s)
+      -- cancelled: `Task::run` returns Ready without polling, the tick drops the task
+      else if TaskState.isCancelled (s.word t) then
+        some { (dropTask (startPoll s t) t) with rt := .run (nextHot s.hot t) k }
+      else some { (startPoll s t) with polls := upd s.polls t (s.polls t + 1), log := s.log ++ [t],
+                                       rt := .poll (.task t (nextHot s.hot t) k) }
   -- external loop: `flush`
   | .xarm, .go => some { (if s.cfg.flushArms then doArm s else s) with rt := .xsubmit }
   | .xsubmit, .go => some { (doSubmit s) with rt := .xreset }
   | .xreset, .go =>
-    let (s, n) := doReset s
-    some { s with zero := s.zero || n, rt := .xwait }
+    some { s with flag := (AwakeFlag.reset s.flag).1, zero := s.zero || (AwakeFlag.reset s.flag).2, rt := .xwait }
   | .xwait, .go => if s.zero || fdReadable s then some { s with rt := .xclear } else none
   | .xwait, .timeout => some { s with rt := .xclear }
   | .xclear, .go => some { s with xfd := 0, rt := .reset }
   -- `Driver::poll`
   | .reset, .go =>
-    let (s, n) := doReset s
-    some { s with needWait := !n, rt := .arm }
+    some { s with flag := (AwakeFlag.reset s.flag).1, needWait := !(AwakeFlag.reset s.flag).2, rt := .arm }
   | .arm, .go => some { (doArm s) with rt := .submit }
   | .submit, .go => some { (doSubmit s) with rt := .wait }
   | .wait, .go =>
@@ -340,65 +333,80 @@ def rtStep (s : State) (e : RtEv) : Option State :=
   | .pswap, .go => some { s with pnot := false, rt := .setAwake1 }
   | .setAwake1, .go =>
     match s.cfg.drv with
-    | .iour => some { (doSetAwake s) with rt := .consume }
-    | .poll => some { (doSetAwake s) with rt := .setAwake2 }
+    | .iour => some { s with flag := AwakeFlag.set s.flag, rt := .consume }
+    | .poll => some { s with flag := AwakeFlag.set s.flag, rt := .setAwake2 }
   | .consume, .go => if s.cq then some { s with cq := false, rt := .clear } else some { s with rt := .setAwake2 }
   | .consume, .noMore =>
     if s.cq then some { s with cq := false, arm := .needPush, rt := .clear } else none
   | .clear, .go => some { s with efd := 0, rt := .setAwake2 }
-  | .setAwake2, .go => some { (doSetAwake s) with rt := .mainStart }
+  | .setAwake2, .go => some { s with flag := AwakeFlag.set s.flag, rt := .mainStart }
   | _, _ => none
 
 /-! ### waker threads -/
 
 def setWk (s : State) (w : Nat) (k : Wk) : State := { s with wk := upd s.wk w k }
 
-/-- the driver waker returned -/
-def dwDone (s : State) (w : Nat) (k : Wk) : State :=
-  match k.kind with
-  | .main =>
-    setWk { s with mainWoken := s.mainWoken || (k.seq0 == s.mainSeq) } w { k with pc := .idle }
-  | .task _ => setWk s w { k with pc := if k.pushed then .fin else .push }
+/-- the driver waker returned to a `wake_by_ref` of the main future's waker: the call is over -/
+def mainDone (s : State) (w : Nat) (seq0 : Nat) : State :=
+  { s with mainWoken := s.mainWoken || (seq0 == s.mainSeq), wk := upd s.wk w { (s.wk w) with seq0 := seq0, pc := .idle } }
 
 def wStep (s : State) (w : Nat) : Option State :=
-  let k := s.wk w
-  match k.pc, k.kind with
+  match (s.wk w).pc, (s.wk w).kind with
   | .sched, .task t =>
-    let old := s.word t
-    let s := { s with word := upd s.word t (TaskState.startScheduling old) }
-    let k := { k with seq0 := s.pollSeq t }
-    if TaskState.isScheduled old || TaskState.isCompleted old || TaskState.isCancelled old then
-      some (setWk s w { k with pc := .fin })
-    else some (setWk s w { k with pc := .load })
+    if TaskState.isScheduled (s.word t) || TaskState.isCompleted (s.word t) || TaskState.isCancelled (s.word t) then
+      -- coalesced with an earlier wake, or the task is finished
+      some (setWk { s with word := upd s.word t (TaskState.startScheduling (s.word t)) } w
+              { (s.wk w) with seq0 := s.pollSeq t, pc := .fin })
+    else
+      some (setWk { s with word := upd s.word t (TaskState.startScheduling (s.word t)) } w
+              { (s.wk w) with seq0 := s.pollSeq t, pc := .load })
   | .load, .task t =>
-    if s.dropped t then some (setWk s w { k with pc := .fin }) else some (setWk s w { k with pc := .reserve })
-  | .reserve, .task _ => some (setWk { s with pending := s.pending + 1 } w { k with pc := .push })
+    if s.dropped t then some (setWk s w { (s.wk w) with pc := .fin })
+    else some (setWk s w { (s.wk w) with pc := .reserve })
+  | .reserve, .task _ => some (setWk { s with pending := s.pending + 1 } w { (s.wk w) with pc := .push })
   | .push, .task t =>
     if s.sync.length < s.cfg.q then
-      let s := { s with sync := s.sync ++ [t] }
-      if k.notified && !s.cfg.rewake then some (setWk s w { k with pushed := true, pc := .fin })
-      else some (setWk s w { k with pushed := true, pc := .dwake })
-    else if !k.notified then some (setWk s w { k with notified := true, pc := .dwake })
-    else some (setWk s w { k with pc := .spin })
+      if (s.wk w).notified && !s.cfg.rewake then
+        some (setWk { s with sync := s.sync ++ [t] } w { (s.wk w) with pushed := true, pc := .fin })
+      else some (setWk { s with sync := s.sync ++ [t] } w { (s.wk w) with pushed := true, pc := .dwake })
+    else if !(s.wk w).notified then some (setWk s w { (s.wk w) with notified := true, pc := .dwake })
+    else some (setWk s w { (s.wk w) with pc := .spin })
   | .spin, .task t =>
-    if TaskState.isCancelled (s.word t) then some (setWk (subPending s 1) w { k with pc := .fin })
-    else some (setWk s w { k with pc := .push })
-  | .dwake, kind =>
-    let (s, was) := doFlagWake s
-    let k := match kind with
-      | .main => { k with seq0 := s.mainSeq }
-      | .task _ => k
-    if was then some (dwDone s w k)
+    if TaskState.isCancelled (s.word t) then some (setWk (subPending s 1) w { (s.wk w) with pc := .fin })
+    else some (setWk s w { (s.wk w) with pc := .push })
+  -- the driver waker: `if !awake.wake() { signal }`
+  | .dwake, .main =>
+    if (AwakeFlag.wake s.flag).2 then some (mainDone { s with flag := (AwakeFlag.wake s.flag).1 } w s.mainSeq)
     else match s.cfg.drv with
-      | .iour => some (setWk s w { k with pc := .write })
-      | .poll => some (setWk s w { k with pc := .cas })
-  | .cas, _ =>
-    if s.pnot then some (dwDone s w k) else some (setWk { s with pnot := true } w { k with pc := .write })
-  | .write, _ => some (dwDone (kWrite s) w k)
+      | .iour => some (setWk { s with flag := (AwakeFlag.wake s.flag).1 } w
+                        { (s.wk w) with seq0 := s.mainSeq, pc := .write })
+      | .poll => some (setWk { s with flag := (AwakeFlag.wake s.flag).1 } w
+                        { (s.wk w) with seq0 := s.mainSeq, pc := .cas })
+  | .dwake, .task _ =>
+    if (AwakeFlag.wake s.flag).2 then
+      -- the driver waker returned: after the push the call finishes, before it (the queue was full) the thread
+      -- goes back to the push loop
+      if (s.wk w).pushed then some (setWk { s with flag := (AwakeFlag.wake s.flag).1 } w { (s.wk w) with pc := .fin })
+      else some (setWk { s with flag := (AwakeFlag.wake s.flag).1 } w { (s.wk w) with pc := .push })
+    else match s.cfg.drv with
+      | .iour => some (setWk { s with flag := (AwakeFlag.wake s.flag).1 } w { (s.wk w) with pc := .write })
+      | .poll => some (setWk { s with flag := (AwakeFlag.wake s.flag).1 } w { (s.wk w) with pc := .cas })
+  | .cas, .main =>
+    if s.pnot then some (mainDone s w (s.wk w).seq0)
+    else some (setWk { s with pnot := true } w { (s.wk w) with pc := .write })
+  | .cas, .task _ =>
+    if s.pnot then
+      if (s.wk w).pushed then some (setWk s w { (s.wk w) with pc := .fin })
+      else some (setWk s w { (s.wk w) with pc := .push })
+    else some (setWk { s with pnot := true } w { (s.wk w) with pc := .write })
+  | .write, .main => some (mainDone (kWrite s) w (s.wk w).seq0)
+  | .write, .task _ =>
+    if (s.wk w).pushed then some (setWk (kWrite s) w { (s.wk w) with pc := .fin })
+    else some (setWk (kWrite s) w { (s.wk w) with pc := .push })
   | .fin, .task t =>
-    let s := { s with word := upd s.word t (TaskState.finishScheduling (s.word t)),
-                      woken := upd s.woken t (s.woken t || (k.seq0 == s.pollSeq t)) }
-    some (setWk s w { k with pc := .idle })
+    some (setWk { s with word := upd s.word t (TaskState.finishScheduling (s.word t)),
+                         woken := upd s.woken t (s.woken t || ((s.wk w).seq0 == s.pollSeq t)) } w
+            { (s.wk w) with pc := .idle })
   | _, _ => none
 
 inductive Event where
